@@ -1014,6 +1014,8 @@ class Exec:
 
     def to_term(self, v, ty, st):
         """coerce a value to a z3 term of type ty"""
+        if hasattr(v, 'as_term'):
+            return v.as_term(self, st, ty)
         if isinstance(v, EmptyList):
             if isinstance(ty, TSeq):
                 return self.ops(st).empty(ty)
@@ -1084,6 +1086,8 @@ class Exec:
 
     def as_seq(self, v, st):
         """value -> Val with TSeq type (snapshot), or None"""
+        if hasattr(v, 'as_seq_val'):
+            return v.as_seq_val(self, st)
         if isinstance(v, MList):
             return Val(v.ty, v.t)
         if isinstance(v, Val) and isinstance(v.ty, TSeq):
